@@ -65,6 +65,8 @@ def record_outputs(env, prop, pr, outs):
     for nm, out in zip(names, outs):
         if nm == "quantile":
             continue
+        if nm == "valid_count" and pr.case.fmt[0] == "plain" and not pr.case.ignore:
+            continue        # the documented shortcut the property excludes
         c = copy.copy(pr.case)
         c.func = nm
         if nm == "count":
